@@ -44,8 +44,8 @@ func (v *VerifBucket) TryOnce() bool {
 	return false
 }
 
-// TryReal performs one attempt through the real Wait(): Wait() runs on a copy of the bucket under the frozen clock; when it does not return
-// within a few milliseconds its first attempt is over (it sleeps 50 ms between attempts) and the state it left is taken over. The abandoned
+// TryReal performs one attempt through the real Wait(): Wait() runs on a copy of the bucket under the frozen clock; when it starts a
+// second attempt instead of returning (it sleeps 50 ms between attempts) the first one has failed and the state it left is taken over. The abandoned
 // waiter is then let go (its clock jumps far ahead, so its next attempt succeeds and the goroutine ends).
 func (v *VerifBucket) TryReal() bool {
 	src := v.tb
@@ -53,10 +53,11 @@ func (v *VerifBucket) TryReal() bool {
 	cp := &tokenBucket{tokens: src.tokens, capacity: src.capacity, refillRate: src.refillRate, idealRate: src.idealRate,
 		lastRefill: src.lastRefill, penaltyUntil: src.penaltyUntil, failureCount: src.failureCount}
 	src.mu.Unlock()
-	var abandoned, started atomic.Bool
+	var abandoned atomic.Bool
+	var calls atomic.Int64
 	now := v.now
 	cp.nowFunc = func() time.Time {
-		started.Store(true)
+		calls.Add(1)
 		if abandoned.Load() {
 			return now.Add(100000 * time.Hour)
 		}
@@ -64,24 +65,22 @@ func (v *VerifBucket) TryReal() bool {
 	}
 	done := make(chan struct{})
 	go func() { cp.Wait(); close(done) }()
+	// the attempt is over when Wait() has returned, or when it asks for the time a second time (it does so once per attempt, and sleeps
+	// 50 ms between attempts): no guess about how long an attempt takes
 	released := false
-	deadline := time.Now().Add(200 * time.Millisecond)
-	for !started.Load() && time.Now().Before(deadline) {
+	deadline := time.Now().Add(5 * time.Second)
+	for !released && calls.Load() < 2 && time.Now().Before(deadline) {
 		select {
 		case <-done:
 			released = true
-		default:
-			time.Sleep(20 * time.Microsecond)
-		}
-		if released {
-			break
+		case <-time.After(2 * time.Millisecond):
 		}
 	}
 	if !released {
 		select {
 		case <-done:
 			released = true
-		case <-time.After(4 * time.Millisecond):
+		default:
 		}
 	}
 	cp.mu.Lock()
